@@ -158,7 +158,9 @@ H_SEQ = Harness(
                   "extra_pre": ["n <= 3 or (i1 == 0 and i2 == 0 and i3 == 0 and i4 == 0)"],
                   "twin_fixed": {"n": 3, "o1": 0, "o2": 2}},
         "thorough": {"ranges": {"n": (0, 5), "i1": (0, 1), "i2": (0, 1), "i3": (0, 1), "i4": (0, 1), "i5": (0, 1)}, "fixed": {"o6": 0, "i6": 0},
-                     "partition": ["n", "o1", "o2", "o3"], "timeout": 2400, "twin_fixed": {"n": 3, "o1": 0, "o2": 2, "o3": 1}},
+                     "partition": ["n", "o1", "o2", "o3"], "timeout": 2400,
+                     "extra_pre": ["n <= 4 or (i1 == 0 and i2 == 0 and i3 == 0 and i4 == 0 and i5 == 0)"],
+                     "twin_fixed": {"n": 3, "o1": 0, "o2": 2, "o3": 1}},
     },
     functions=_FUNCS,
 )
